@@ -378,6 +378,15 @@ func buildEnv(key envKey, structs []structure) *env {
 			sp.Ops = append(sp.Ops, apib.Op{Method: "POST", Path: opPath(i), Params: params, Security: &sec})
 			paths = append(paths, opPath(i))
 		}
+	case declAbsent: // /o0 declares the structure; /none has no security key and there is no global security
+		if len(structs) != 1 {
+			panic("no-security-key declaration takes one structure")
+		}
+		sec := structs[0].security(key.naming)
+		sp.Ops = append(sp.Ops,
+			apib.Op{Method: "POST", Path: opPath(0), Params: params, Security: &sec},
+			apib.Op{Method: "POST", Path: "/none", Params: params})
+		paths = append(paths, opPath(0), "/none")
 	default: // declared globally: exactly one structure; /o0 inherits, /none overrides with the empty list
 		if len(structs) != 1 {
 			panic("global declaration takes one structure")
@@ -452,7 +461,7 @@ func buildEnv(key envKey, structs []structure) *env {
 	for i := range structs {
 		e.bases[i] = e.lookup(opPath(i))
 	}
-	if key.decl == declGlobal || key.decl == declNone {
+	if key.decl == declGlobal || noRequirements(key.decl) {
 		e.noneBase = e.lookup("/none")
 	}
 	return e
@@ -895,7 +904,7 @@ func (e *env) execHandler(opIdx int, path string, k kase, owned bool) (o obs) {
 // Mapping to the vocabulary of the reference (authorizer absent): a non-nil principal is an admission through the
 // alternative left in route.Authenticator; (true, nil, nil) with an anonymous alternative left there is the
 // anonymous admission; an error is that refusal; anything else is "no alternative applied".
-func (e *env) execAuthenticators(base *middleware.MatchedRoute, auths middleware.RouteAuthenticators, owned bool, baseReq *http.Request) (o obs) {
+func (e *env) execAuthenticators(base *middleware.MatchedRoute, auths middleware.RouteAuthenticators, owned bool, baseReq *http.Request, singular bool) (o obs) {
 	st := &state{}
 	o.orderOwned = owned
 	defer func() {
@@ -907,7 +916,15 @@ func (e *env) execAuthenticators(base *middleware.MatchedRoute, auths middleware
 	m := *base
 	m.Authenticators = auths
 	m.Authenticator = nil
-	applies, usr, err := auths.Authenticate(req, &m)
+	var applies bool
+	var usr interface{}
+	var err error
+	if singular && len(auths) == 1 {
+		// the exported method of the one alternative, called the way a hand-written handler may call it
+		applies, usr, err = auths[0].Authenticate(req, &m)
+	} else {
+		applies, usr, err = auths.Authenticate(req, &m)
+	}
 	o.authCalls = st.authCalls
 	switch {
 	case err != nil:
